@@ -306,6 +306,7 @@ _banned = [
     "namespace",
     "add",
     "get",
+    "bundle_ports",
 ]
 
 
@@ -317,6 +318,12 @@ def _add(module: Module, val: ModuleAttr) -> ModuleAttr:
 
     if module._elaborated is not None:
         raise RuntimeError(f"Cannot add {val} to {module} after elaboration.")
+
+    # Protected names are off limits, whichever way the attribute arrives: `add` or `setattr`.
+    # So are names which attribute-access never looks for in the module namespace.
+    if val.name in _banned or val.name == "name" or val.name.startswith("_"):
+        msg = f"Invalid attribute name {val.name} for {val} in Module {module.name}"
+        raise RuntimeError(msg)
 
     # Sort out which of our type-based containers to add `val` to.
     if isinstance(val, Signal):
